@@ -1,6 +1,7 @@
 package main
 
 import (
+	"sort"
 	"context"
 	"fmt"
 	"math"
@@ -93,6 +94,43 @@ func genComputeCases(r *Rng, tier string, forC02 bool) []*Case {
 			}
 		}
 		c, p, kind := randGraph(r, n)
+		if forC02 && (k < 2 || (tier != "quick" && k%100 == 0)) {
+			// many newcomers: more than 32 peers that nobody trusts (their rows of C^T*t are zero products)
+			// around a small core, in a graph wider than MulVec's worker pool
+			n = 40 + r.Intn(30)
+			core := 3 + r.Intn(4)
+			c = Mat{Major: n, Minor: n, Rows: make([][]Ent, n)}
+			for i := 0; i < n; i++ {
+				seen := map[int]bool{}
+				for t := 0; t < 1+r.Intn(2); t++ {
+					j := r.Intn(core)
+					if !seen[j] {
+						seen[j] = true
+						c.Rows[i] = append(c.Rows[i], Ent{I: j, V: JFloat(r.Pos())})
+					}
+				}
+				es := c.Rows[i]
+				if len(es) == 2 && es[0].I > es[1].I {
+					es[0], es[1] = es[1], es[0]
+				}
+			}
+			// a few trusted peers at high indices, so that rows after the 32nd zero product matter
+			for t := 0; t < 3; t++ {
+				i, j := r.Intn(core), n-1-r.Intn(5)
+				dup := false
+				for _, e := range c.Rows[i] {
+					dup = dup || e.I == j
+				}
+				if !dup {
+					c.Rows[i] = append(c.Rows[i], Ent{I: j, V: JFloat(r.Pos())})
+				}
+			}
+			for i := range c.Rows {
+				es := c.Rows[i]
+				sort.Slice(es, func(a, b int) bool { return es[a].I < es[b].I })
+			}
+			p, kind = Vec{Dim: n}, "newcomers"
+		}
 		for !forC02 && kind == "subnormal" {
 			// C01's exact rational certificate is too slow on 2^-1074-scale weights; C02/C05/C06/C18 use them
 			c, p, kind = randGraph(r, n)
